@@ -13,5 +13,8 @@ sec = sec.replace('SEEDTABLE', table.strip())
 rows = [l for l in table.splitlines() if l.startswith('| C')]
 caught = sum(1 for l in rows if '| caught by' in l)
 sec = sec.replace('SEEDCOUNT', '%d of %d' % (caught, len(rows)))
+import os
+aud = open('/verif/tools/audit.md').read().strip() if os.path.exists('/verif/tools/audit.md') else 'The audit was still running when this was committed.'
+sec = sec.replace('AUDITRESULT', aud)
 open('/verif/DESIGN.md', 'w').write(d + sec)
 print('DESIGN.md section 11 regenerated')
